@@ -36,6 +36,7 @@ def cases(tier, seed):
     rng = gen.rng_for(seed, PROP, tier)
     n = 90 if tier == "quick" else 1900
     out = []
+    n_many = 1 if tier == "quick" else 12
     for i in range(n):
         picker = ("log", "dog", "tm")[int(rng.integers(0, 3))]
         out.append({"picker": picker, "scale": float(rng.choice([0.5, 1.0, 2.3])),
@@ -47,6 +48,11 @@ def cases(tier, seed):
                     "sched": ("sync", "threads", "shuffle")[int(rng.integers(0, 3))],
                     "iseed": int(rng.integers(0, 2**31)), "cost": 6.0 if picker == "tm" else 3.0,
                     "slab": bool(rng.random() < 0.25), "md_px": float(rng.choice([5.0, 8.0, 10.0]))})
+    for i in range(n_many):
+        out.append({"picker": "tm", "scale": float(rng.choice([1.0, 2.3])), "npart": 3, "dtype": "float32",
+                    "chunking": ("halves", "single")[int(rng.integers(0, 2))], "sched": "threads", "even": False,
+                    "offset": 0.0, "provider": False, "md_px": 5.0, "slab": False, "many": True,
+                    "iseed": int(rng.integers(0, 2**31)), "cost": 40.0})
     return out
 
 
@@ -151,13 +157,35 @@ def run(case):
         rots = [Rotation.identity(), Rotation.from_rotvec([0, 0, np.pi / 2]), Rotation.from_rotvec([np.pi / 2, 0, 0])]
         depth = int(np.ceil(S / 2))
         shape = tuple(int(x) for x in rng.integers(36, 53, size=3))
+        if p.get("many"):
+            shape = tuple(int(x) for x in rng.integers(42, 47, size=3))
         md_px = float(p.get("md_px", 5.0))
         truth = _place(rng, shape, p["npart"], min_sep=max(tshape) + (6 if md_px == 5.0 else 2), margin=max(tshape) / 2 + 3)
+        if md_px == 10.0 and len(truth) >= 2:
+            # a pair on a body diagonal: 9 px apart along every axis (inside a cube of the exclusion radius, outside
+            # the exclusion ball: 15.6 px), both must be found
+            for sg in ((1, 1, 1), (1, -1, 1), (-1, 1, 1), (1, 1, -1), (-1, -1, -1)):
+                cand = truth[0] + 9.0 * np.array(sg)
+                lo_ = max(tshape) / 2 + 3
+                if np.all(cand >= lo_) and np.all(cand <= np.asarray(shape) - 1 - lo_):
+                    rest = [q for q in truth[2:] if np.abs(q - cand).max() >= max(tshape) + 2]
+                    truth = np.array([truth[0], cand] + rest)
+                    case.count("tm_diagonal_pairs")
+                    break
+        rots_many = None
+        if p.get("many"):
+            case.count("tm_banks_over_256_rotations")
+            # a bank of more than 256 rotations: the rotation index does not fit one byte
+            rots_many = [Rotation.identity()] + [gen.small_rotation(rng, 20, 170) for _ in range(261)]
         truth = np.round(truth) + (0.5 * (1 - np.asarray(tshape) % 2))
         vol = np.zeros(shape)
+        if rots_many is not None:
+            rots = rots_many
         ks = []
-        for t in truth:
+        for ti_, t in enumerate(truth):
             k = int(rng.integers(0, len(rots)))
+            if rots_many is not None:
+                k = (3, 257, 261, 130, 256)[ti_ % 5]
             ks.append(k)
             gen.render_world(shape, blobs, t, rots[k], dtype=None, out=vol)
         vol = (vol + 0.02 * rng.normal(size=shape)).astype(np.float32)
